@@ -10,5 +10,6 @@ CONSTANTS
   FnFilter = "all"
   Shapes = {"plain"}
   MaxSess = 0
+  FixProtoCache = FALSE
   Bug = "none"
 CHECK_DEADLOCK FALSE
